@@ -25,7 +25,7 @@ CLAIMED = {
  "C13": ("EQU/SET rules through the real EnterIntSymbolWithFlags/SymbolAdder/LookupSymbol (a constant never changes silently, SET may, double definition and EQU/SET mixing are errors); resolution order of LookupSymbol/FindNode over a two-level section nesting incl. name[] / name[section] qualifiers; PUBLIC/GLOBAL/FORWARD list entries (CodePPSyms) take the target section of their own qualifier",
          "DESIGN.md C13", "tree as list contract, name handling cut to identity on one-letter names, qualifier parsing (GetSymSection/IdentifySection) cut to maps; local handles, PUSHV/POPV, case folding, temporary symbols and the redirect lists of EnterSymbol are not covered"),
  "C16": ("ReadLnCont (strutil.c) on every file of <= 3 bytes (4 thorough): CR before LF and a trailing ^Z are immaterial, backslash-newline joins lines, the return value is the number of physical lines consumed",
-         "DESIGN.md C16", "only the line reader; SplitLine (blanks/tabs/comments/colon), letter case, INCLUDE/macro wrapping and the per-target operand parsers are outside"),
+         "DESIGN.md C16", "kernels: line reader, FirstBlank (blank/tab separator search), as_strcasecmp; SplitLine (comments/colon), INCLUDE/macro wrapping and the per-target operand parsers are outside"),
  "C17": ("report-option non-interference at the emission step (2-safety by self-composition): the real WriteCode + BookKeeping run twice from the same arbitrary state under two arbitrary settings of -u/-g/-C/list mode/list mask and must hand the same records, counters and errors to the code-file writer",
          "DESIGN.md C17", "one step only; code-file writer and debug/use lists are call recorders; whole-run determinism, option placement and locale are outside"),
  "C18": ("reset completeness of ~40 per-file/per-pass core variables: arbitrary pre-state (what a predecessor file could leave), then the real AsmDefInit/AsmIFInit/AssembleFile_InitPass/AsmSubPassInit; every listed variable must hold its start value",
@@ -35,11 +35,11 @@ CLAIMED = {
  "C14": ("Intel 4004/4040 (code4004.c complete: the real InitFields, MakeCode_4004, all Decode* handlers and register parsers) against a reference encoder written from the MCS-4/MCS-40 instruction set: all 45 operand-less mnemonics x CPU variant, all register and register-pair forms in both spellings, BBL/LDM/FIM/JUN/JMS/JCN/ISZ with arbitrary 64-bit operand values and any PC",
          "DESIGN.md C14", "claimed for the 4004/4040 target only; instruction hash table replaced by a list contract filled by the real InitFields; contract evaluator for operand values; the other six targets are not covered"),
  "C19": ("MakeList of asmlist.c: the address shown on a listing line is the load address + phase of the line's code, the listed words are the emitted bytes in order, each byte exactly once, and MakeList leaves code buffer, CodeLen and counters alone",
-         "DESIGN.md C19", "listing formatter replaced by a token recorder; radix 16; MAP, symbol table and share file outputs are not covered"),
+         "DESIGN.md C19", "listing formatter replaced by a token recorder; radix 16; plus the per-line reset of ListLine/CodeLen/DontPrint in ProcessFile; MAP, symbol table and share file outputs are not covered"),
  "C20": ("position selection for diagnostics: GetErrorPos and INCLUDE/MACRO/REPT_GetPos over chains of <= 3 input tags in native and -gnuerrors style; ExpandINCLUDE_Core/INCLUDE_Restorer reinstate the enclosing file's physical line counter and name; EXPECT/ENDEXPECT bookkeeping (asmerr.c); physical-line counting of ReadLnCont",
          "DESIGN.md C20", "formatter replaced by a token recorder; IRP/IRPC/WHILE tags, message text and column markers outside"),
  "C11": ("macro parameter substitution kernel: CompressLine + ExpandLine (asmsub.c) on every body line of <= 4 characters, parameter name of 1..2 letters, parameter number 0..19 and argument of <= 2 characters equals the textual replacement of whole (alphanumerically delimited) parameter names",
-         "DESIGN.md C11", "only the substitution kernel; argument binding, iteration stepping, nesting, INCLUDE/BINCLUDE and the end-to-end equivalence with hand expansion are outside"),
+         "DESIGN.md C11", "two kernels (parameter substitution; argument binding in ExpandMacro for 2 parameters x 6 argument shapes); iteration stepping, nesting, INCLUDE/BINCLUDE and the end-to-end equivalence with hand expansion are outside"),
  "C12": ("asmif.c complete: every sequence of K statements (17 kinds, arbitrary 64-bit conditions/selectors, 0..3 arguments) vs a reference interpreter written from the manual",
          "DESIGN.md C12", "expression evaluator and symbol/macro/file look-ups replaced by stubs returning arbitrary values; listing decoration stubbed; integer selectors; K=4 quick / K=6 thorough"),
 }
